@@ -341,7 +341,9 @@ func RunCheck(o CheckOptions) int {
 					rep.CrossFailed = append(rep.CrossFailed, "no native outcome")
 					continue
 				}
-				rep.CrossChecked++
+				if !out.Skipped {
+					rep.CrossChecked++
+				}
 				if msg := compareOutcome(r, out); msg != "" && len(rep.CrossFailed) < 5 {
 					rep.CrossFailed = append(rep.CrossFailed, fmt.Sprintf("%s decisions=%v: %s", r.Facts, r.Decisions, msg))
 				}
@@ -353,6 +355,11 @@ func RunCheck(o CheckOptions) int {
 				}
 				b, _ := json.Marshal(out)
 				cr.rec.NativeOut = b
+				if out.Skipped {
+					// engine-only harness (facts read off the SSA of /repo): nothing to replay
+					cr.rec.Confirmed = true
+					cr.rec.Kind = "SSA"
+				}
 				for _, l := range out.Failed {
 					if l == cr.rec.Label {
 						cr.rec.Confirmed = true
@@ -506,12 +513,16 @@ type nativeOutcome struct {
 	Passed    []string           `json:"passed"`
 	Reached   []string           `json:"reached"`
 	AssumeBad bool               `json:"assume_bad"`
+	Skipped   bool               `json:"skipped,omitempty"`
 	Panic     string             `json:"panic,omitempty"`
 	Observed  map[string][]int64 `json:"observed,omitempty"`
 	Facts     map[string]string  `json:"facts,omitempty"`
 }
 
 func compareOutcome(r *PathResult, out *nativeOutcome) string {
+	if out.Skipped {
+		return ""
+	}
 	if out.AssumeBad {
 		return "native run rejected an assumption the engine accepted"
 	}
